@@ -187,6 +187,7 @@ static void map_history(Src& s) {
     std::vector<uint64_t> absent;
     for (int i = 0; i < 30; ++i) absent.push_back(s.chance(1, 2) ? s.draw(dense_limit()) : s.draw64());
     const bool flex_explicit_switch = s.chance(1, 4);
+    const bool flex_switch_before_sort = s.boolean();
 
     std::vector<std::string> types = factory_type::instance().map_types();
     std::string desc = "ids: dense " + std::to_string(dense1.size()) + "+" + std::to_string(dense2.size()) + " sparse " + std::to_string(sparse1.size()) + "+" + std::to_string(sparse2.size()) +
@@ -232,6 +233,14 @@ static void map_history(Src& s) {
             }
         };
         insert_batch(dense1, sparse1);
+        if (type == "flex_mem" && flex_explicit_switch && flex_switch_before_sort && (model.m.empty() || model.m.rbegin()->first < dense_limit())) {
+            // the switch with the entries still in insertion order (ids of several 2^16-id blocks, going back and forth between them)
+            auto* fm = dynamic_cast<osmium::index::map::FlexMem<osmium::unsigned_object_id_type, osmium::Location>*>(m.get());
+            if (fm && !fm->is_dense()) {
+                fm->switch_to_dense();
+                vp::count("flex_explicit_switch_before_sort");
+            }
+        }
         m->sort();
         verify_map(*m, model, absent, type + " after first batch");
         if (!dense2.empty() || !sparse2.empty()) {
@@ -417,7 +426,62 @@ static void nlfw(Src& s) {
 }
 
 // FlexMem automatic switch (threshold lowered by the OSMIUM_VERIF_FLEXMEM_MIN_DENSE hook in the quick tier)
+// The automatic switch with many unsorted entries from several 2^16-id blocks: the largest id comes first (so the map is "not dense
+// enough" for a long time: the density is only looked at when a new largest id arrives), then ids below it in a generated order, then the
+// next larger id, which triggers the switch with everything inserted so far still in insertion order; then some more ids.
+static void flex_late_switch(Src& s) {
+    osmium::index::map::FlexMem<osmium::unsigned_object_id_type, osmium::Location> m;
+    const uint64_t blocks = 1 + s.draw(4);
+    const uint64_t M = blocks * 65536 + s.draw(65536);  // largest id of the first phase
+    const uint64_t n = M / 3 + 2 + s.draw(2000);         // enough entries for "dense" (M+1 < 3 * entries), and beyond any threshold
+    const uint64_t salt = s.draw(1000);
+    const int order = static_cast<int>(s.draw(4));       // 0 strided walk, 1 descending, 2 ascending with local disorder, 3 two interleaved runs
+    Model model;
+    auto put = [&](uint64_t id) {
+        if (model.m.count(id)) return;
+        osmium::Location v = value_for(id, salt);
+        m.set(id, v);
+        model.m[id] = v;
+    };
+    put(M);
+    VP_CHECK(!m.is_dense(), "flex-switch", "FlexMem became dense with a single entry");
+    uint64_t stride = (M / 3) | 1;
+    {
+        auto gcd = [](uint64_t a, uint64_t b) { while (b) { uint64_t t = a % b; a = b; b = t; } return a; };
+        while (gcd(stride, M) != 1) stride += 2;
+    }
+    const uint64_t gap = M / n;  // ids are spread over the whole range below M
+    for (uint64_t i = 0; i < n; ++i) {
+        uint64_t id;
+        switch (order) {
+            case 0: id = (i * stride) % M; break;
+            case 1: id = (n - 1 - i) * gap + (i % gap); break;
+            case 2: id = (i ^ 5) * gap; break;
+            default: id = (i % 2 ? i / 2 : n - 1 - i / 2) * gap; break;
+        }
+        if (id < M) put(id);
+    }
+    const bool dense_before_trigger = m.is_dense();
+    put(M + 1);
+    const bool switched = !dense_before_trigger && m.is_dense();
+    for (uint64_t i = 0, extra = s.draw(300); i < extra; ++i) put(s.draw(M + 70000));
+    m.sort();
+    std::vector<uint64_t> absent{M + 70005, M * 2 + 7, 1ULL << 40};
+    for (int i = 0; i < 30; ++i) absent.push_back(s.draw(M));
+    verify_map(m, model, absent, "flex_mem after the automatic switch with " + std::to_string(model.m.size()) + " unsorted entries in " + std::to_string(blocks + 1) + " blocks (order " + std::to_string(order) + ")");
+    std::string desc = "flex_mem late switch: largest id " + std::to_string(M) + ", " + std::to_string(n) + " ids below it in order " + std::to_string(order) + (switched ? ", switched at the trigger" : dense_before_trigger ? ", dense before the trigger" : ", stayed sparse");
+    if (vp::want_desc()) vp::describe(desc);
+    if (switched) {
+        vp::count("flex_automatic_switch_with_unsorted_entries_of_several_blocks");
+        vp::nontrivial(vp::hash_str(desc));
+    }
+}
+
 static void flex_switch(Src& s) {
+    if (s.chance(1, 2)) {
+        flex_late_switch(s);
+        return;
+    }
     osmium::index::map::FlexMem<osmium::unsigned_object_id_type, osmium::Location> m;
 #ifdef OSMIUM_VERIF_FLEXMEM_MIN_DENSE
     const uint64_t threshold = OSMIUM_VERIF_FLEXMEM_MIN_DENSE;
